@@ -220,6 +220,7 @@ type StructAtom struct {
 	K     int
 	Lin   Poly
 	Shape []Poly
+	Div   bool // integer quotient Lin / Shape[0] (truncated, as Go's / on non-negative operands)
 }
 
 var structAtoms = map[string]*StructAtom{}
@@ -283,7 +284,11 @@ func (p Poly) Subst(m map[string]Poly) Poly {
 				for i, x := range sa.Shape {
 					sh[i] = x.Subst(m)
 				}
-				base = Unravel(sa.K, sa.Lin.Subst(m), sh)
+				if sa.Div {
+					base = IDiv(sa.Lin.Subst(m), sh[0])
+				} else {
+					base = Unravel(sa.K, sa.Lin.Subst(m), sh)
+				}
 			} else {
 				base = PAtom(f.a)
 			}
@@ -375,6 +380,13 @@ func (sa *StructAtom) eval(env map[string]int64) (int64, bool) {
 	if !ok {
 		return 0, false
 	}
+	if sa.Div {
+		d, ok := sa.Shape[0].Eval(env)
+		if !ok || d == 0 {
+			return 0, false
+		}
+		return lin / d, true
+	}
 	stride := int64(1)
 	for i := len(sa.Shape) - 1; i > sa.K; i-- {
 		d, ok := sa.Shape[i].Eval(env)
@@ -388,4 +400,21 @@ func (sa *StructAtom) eval(env map[string]int64) (int64, bool) {
 		return 0, false
 	}
 	return (lin / stride) % d, true
+}
+
+// IDiv is the integer quotient p / q (Go semantics), kept symbolic unless both are constants.
+func IDiv(p, q Poly) Poly {
+	cp, ok1 := p.Const()
+	cq, ok2 := q.Const()
+	if ok1 && ok2 && cq != 0 {
+		return PInt(cp / cq)
+	}
+	if ok2 && cq == 1 {
+		return p
+	}
+	name := sanitizeAtom("idiv⟨" + p.String() + "|" + q.String() + "⟩")
+	if _, ok := structAtoms[name]; !ok {
+		structAtoms[name] = &StructAtom{Lin: p, Shape: []Poly{q}, Div: true}
+	}
+	return Poly{t: map[string]int64{name: 1}}
 }
